@@ -156,10 +156,7 @@ class Scenario:
         return rec
 
     def close_client(self, rec):
-        rec["th"].join(timeout=0.05)
-        if not rec["th"].is_alive() and rec["res"] is not None and rec["res"]["complete"]:
-            return                     # the response was complete before the client went away: it counts
-        rec["gone"] = True
+        rec["gone"] = True             # whether its response had already arrived is not part of the observation
         try:
             rec["c"].s.shutdown(2)
         except OSError:
